@@ -9,7 +9,8 @@ World `inheritance` (all declared in the real Context):
   Pa            abstract; field pf: Int (final, overridable); am(x: Int): Aa abstract; cm(): Int concrete, open;
                 fm(): String concrete, final
   Pb : Pa       abstract; optionally implements am (symbolic); bm(): Bb abstract
-  Pg<T>         abstract generic; field pgf: T (final, overridable); gm(t: T): T abstract;
+  Gg<GT>        final generic class
+  Pg<T>         abstract generic; fields pgf: T and pgg: Gg<T> (final, overridable); gm(t: T): T abstract;
                 optionally <F_X : T> pm(x: F_X): F_X abstract (symbolic)
   Ii            interface; im(y: Int): Int
 The superclass offered to the class under construction is a symbolic selector (every other inheritable class is marked
@@ -79,10 +80,15 @@ def make_world(eng, lang):
     if w.pg_has_pm:
         FX = tp.TypeParameter('F_X', bound=T)
         pg_funcs.append(_fn('pm', [P('x', FX)], FX, None, False, [FX]))
-    Pg = ast.ClassDeclaration('Pg', [], ABS, fields=[ast.FieldDeclaration('pgf', T, is_final=True, can_override=True)],
+    GT = tp.TypeParameter('GT')
+    Gg = ast.ClassDeclaration('Gg', [], REG, fields=[], functions=[], is_final=True, type_parameters=[GT])
+    w.Gg = Gg
+    Pg = ast.ClassDeclaration('Pg', [], ABS, fields=[ast.FieldDeclaration('pgf', T, is_final=True, can_override=True),
+                                                     ast.FieldDeclaration('pgg', Gg.get_type().new([T]), is_final=True,
+                                                                          can_override=True)],
                               functions=pg_funcs, is_final=False, type_parameters=[T])
     Ii = ast.ClassDeclaration('Ii', [], INTF, fields=[], functions=[_fn('im', [P('y', INT)], INT, None, False)], is_final=False)
-    w.classes = dict(Aa=Aa, Bb=Bb, Pa=Pa, Pb=Pb, Pg=Pg, Ii=Ii)
+    w.classes = dict(Aa=Aa, Bb=Bb, Pa=Pa, Pb=Pb, Gg=Gg, Pg=Pg, Ii=Ii)
     for c in w.classes.values():
         g.context.add_class(G, c.name, c)
         for tpar in c.type_parameters:
